@@ -125,8 +125,25 @@ def lit_dt(t):
     return _attr(t, "_datatype", "datatype", "2")
 
 
+class FailureMarker:
+    """Stands in the place of a term in the 'statement' a failed parse is reported as (see props.real_parse_flat)."""
+
+    def __init__(self, name: str) -> None:
+        self.name = name
+
+    def __repr__(self) -> str:
+        return "!" + self.name
+
+
+class ParseFailure(tuple):
+    """What a parse that raised is turned into by the oracles: one pseudo-statement that equals nothing expected."""
+
+
 def term_text(t: object) -> str:
     from pyjelly.integrations.generic.generic_sink import IRI, BlankNode, DefaultGraph, Literal, Triple
+
+    if isinstance(t, FailureMarker):
+        return "!" + t.name
 
     if isinstance(t, IRI):
         if not isinstance(iri_s(t), str):
